@@ -189,7 +189,8 @@ def extract_cfg(cfg, input_names, nested_out):
                        "first_use": {x: p for x, p in used.items() if p is not None},
                        "my_used": list(used), "my_assigned": assigned})
     # variables live at the entry + the positions of the reads that make them live
-    # (own fixpoint over real edges only: LivenessAnalysis(stats) default mode)
+    # (own search over real AND dummy edges: dead code of a nested function is checked too,
+    #  so what it reads is captured — the code after fix-2.patch)
     n = len(blocks)
     live_entry = []
     allv = []
@@ -209,7 +210,7 @@ def extract_cfg(cfg, input_names, nested_out):
                     if p not in poss:
                         poss.append(p)
             if x not in blocks[b]["my_assigned"]:
-                todo += blocks[b]["succ"]
+                todo += blocks[b]["succ"] + blocks[b]["dsucc"]
         if poss:
             live_entry.append((x, sorted(poss)))
     return {"blocks": blocks, "live_entry": live_entry, "exit": idx[cfg.exit_bb], "entry": idx[cfg.entry_bb],
